@@ -10,7 +10,7 @@ from typing import Any, Optional
 from mc import families
 from mc.common import Ctx, InternalError, pmap, rotate
 from mc.fd import AdmissionCounter, Budget, ParsingMode, Timeout, build, has_helper_symbols, snap, time_limit
-from mc.refgrammar import NT, Lit, RefGrammar, Seq, TreeChecker, WordMatcher, member, snap_text, words
+from mc.refgrammar import Alt, NT, Lit, RefGrammar, Seq, TreeChecker, WordMatcher, member, snap_text, words
 
 ADMISSION_BUDGET = 30_000  # terminating requests of the swept sizes need < 5 000 (maximum is reported)
 TIME_BUDGET_S = 30.0
@@ -36,10 +36,13 @@ def grammar_items(tier: str) -> list:
     n_text = 4 if quick else 6
     for g in tf:
         items.append((g, "<start>", n_text, ["a", "b", "c"]))
-    # inner start symbol
+    # inner start symbol (requested on its own, and interleaved with <start> on the same spec object)
     for e in families.exprs(families.text_atoms(), 1):
         g = RefGrammar({"<start>": Seq((NT("<x>"), Lit("!"))), "<x>": e})
         items.append((g, "<x>", n_text, ["a", "b", "!"]))
+    for e in families.exprs(families.text_atoms(), 1):
+        g = RefGrammar({"<start>": Alt((NT("<x>"), Seq((NT("<x>"), Lit("a"))))), "<x>": e})
+        items.append((g, "<start>+<x>", min(n_text, 3), ["a", "b"]))
     bf = families.binary_family(1 if quick else 2)
     n_bin = 2 if quick else 3
     for g in bf:
@@ -75,6 +78,8 @@ def _parse_all(spec: Any, w: Any, start: str, mode: Any, counter: AdmissionCount
 
 def work(item: tuple) -> dict:
     g, start, maxlen, alphabet, which = item
+    if "+" in start:
+        return work_two_starts(item)
     fan = g.fan()
     feats = families.features(g)
     res: dict = {"fan": fan, "start": start, "feats": feats, "viol": [], "words": 0, "members": 0,
@@ -167,6 +172,51 @@ def work(item: tuple) -> dict:
                     res["viol"].append(("C06", dict(base, request="prefix", kind="nontermination", status=st2,
                                                    sig="nontermination:" + ",".join(feats))))
         res["max_adm"] = counter.max_seen
+    return res
+
+
+def work_two_starts(item: tuple) -> dict:
+    """every word requested from two start symbols, in both orders, on ONE spec object"""
+    g, starts, maxlen, alphabet, which = item
+    s1, s2 = starts.split("+")
+    fan = g.fan()
+    feats = families.features(g)
+    res: dict = {"fan": fan, "start": starts, "feats": feats, "viol": [], "words": 0, "members": 0, "pref_members": 0, "trees": 0, "max_adm": 0,
+                 "budget_hits": 0, "nonmember_words": 0, "skipped_words": 0, "forest_caps": 0, "errors": {}, "ambiguous_words": 0}
+    if "nullable_under_star_plus" in feats:
+        return res
+    tc = TreeChecker(g)
+    counter = AdmissionCounter(ADMISSION_BUDGET)
+    with counter:
+        for order in ((s1, s2), (s2, s1)):
+            try:
+                spec = build(fan)
+            except Exception as e:
+                res["spec_error"] = repr(e)
+                return res
+            for w in words(alphabet, maxlen):
+                for start in order:
+                    res["words"] += 1
+                    is_member = WordMatcher(g, w).member(start)
+                    res["members"] += is_member
+                    res["nonmember_words"] += not is_member
+                    status, trees = _parse_all(spec, w, start, ParsingMode.COMPLETE, counter)
+                    if status in ("budget", "timeout"):
+                        res["budget_hits"] += 1
+                        continue
+                    res["trees"] += len(trees)
+                    base = {"grammar": fan, "start": start, "other_start_on_same_object": [x for x in order if x != start][0], "word": repr(w), "feats": feats, "request": "forest"}
+                    if "C04" in which:
+                        for t in trees:
+                            s = snap(t)
+                            why = tc.ok(s, start)
+                            if why is None and snap_text(s) != w:
+                                why = "serialisation differs from the input"
+                            if why:
+                                res["viol"].append(("C04", dict(base, kind="unsound_tree", why=why, tree=repr(s)[:300], sig="unsound:two_starts")))
+                                break
+                        if trees and not is_member:
+                            res["viol"].append(("C04", dict(base, kind="accepts_nonmember", n_trees=len(trees), sig="accepts_nonmember:two_starts")))
     return res
 
 
